@@ -12,6 +12,7 @@ import (
 	"unicode/utf8"
 
 	"github.com/creachadair/jrpc2"
+	"github.com/creachadair/jrpc2/channel"
 	"github.com/creachadair/jrpc2/handler"
 
 	"verif/harness/peer"
@@ -341,6 +342,12 @@ func c17errCode(err error) (jrpc2.Code, bool) {
 
 // c17exec installs tree in a live server and probes it.
 func c17exec(c *vt.Ctx, cfg string, tree *c17asg, disableBuiltin bool, probes []string) {
+	c17execSpelled(c, cfg, tree, disableBuiltin, probes, 0)
+}
+
+// c17execSpelled is c17exec with the method member of every request re-spelt on
+// its way to the server (mode 0: as the client writes it); see c17_spell.go.
+func c17execSpelled(c *vt.Ctx, cfg string, tree *c17asg, disableBuiltin bool, probes []string, spelling int) {
 	st := &c17state{assigns: map[string][]c17assignRec{}, runs: map[string][]c17runRec{}}
 	root := tree.build(st)
 	desc := fmt.Sprintf("config %s DisableBuiltin=%v", cfg, disableBuiltin)
@@ -365,7 +372,13 @@ func c17exec(c *vt.Ctx, cfg string, tree *c17asg, disableBuiltin bool, probes []
 	cliEnd, srvEnd := vchan.NewPair("cli", "srv", mon)
 	st.srv = jrpc2.NewServer(root, &jrpc2.ServerOptions{DisableBuiltin: disableBuiltin})
 	st.srv.Start(srvEnd)
-	cli := jrpc2.NewClient(cliEnd, nil)
+	var cliCh channel.Channel = cliEnd
+	var respell *c17respell
+	if spelling != 0 {
+		respell = &c17respell{Channel: cliEnd, mode: spelling}
+		cliCh = respell
+	}
+	cli := jrpc2.NewClient(cliCh, nil)
 	type result struct {
 		rsp *jrpc2.Response
 		err error
@@ -389,6 +402,9 @@ func c17exec(c *vt.Ctx, cfg string, tree *c17asg, disableBuiltin bool, probes []
 	cli.Close()
 	st.srv.WaitStatus()
 	c.Count("channel_ops", int(mon.Ops.Load()))
+	if respell != nil {
+		c.Count("requests_with_respelt_method", respell.changed)
+	}
 
 	if len(st.orphans) > 0 {
 		o := st.orphans[0]
@@ -809,6 +825,10 @@ func c17cases(e vt.Env, yield func(vt.Case) bool) {
 	if ok {
 		c17batchCases(e, u, both)
 	}
+	// S, D: other spellings of the method name; an assigner that changes (c17_spell.go)
+	if ok {
+		c17spellCases(e, u, both)
+	}
 }
 
 func init() {
@@ -820,6 +840,8 @@ func init() {
 			"X2/X3 fixed chains of nesting depth 2 and 3 over Map{U} probed with the qualified names; R seeded random trees (depth 0..3, 1-4 services per level, hot and random keys) probed with their names, boundary neighbours and a universe sample. " +
 			"B seeded random trees behind a root assigner whose returned handler is bound to the InboundRequest(ctx) of that Assign call (params tag, params variant, id, notification flag), driven by Client.Batch with 160 batches per tree of 1..8 specs: one name k times / ABAB / draws with replacement from three names / independent names, names from the tree (3 of 5), its boundary neighbours, hot keys and a universe sample, each spec a notification with probability 1/4; " +
 			"per request of a batch: recording nodes saw this very request (tag, method, id, notification flag) along exactly the reference path, the leaf its name selects ran once with this request as InboundRequest, and the handler that ran is the one the root assigner built for this request (result {leaf, tag, id, variant} for calls, harness record for notifications); withheld names as before. " +
+			"S the same oracle with the method member of every request re-spelt on its way to the server (every character as \\uXXXX incl. surrogate pairs / short escapes incl. \\/ / a per-character mixture) over a Map and a 6-service ServiceMap holding names with '/', astral characters, quotes, backslashes, controls, U+2028, composed and decomposed é, and over the universe; " +
+			"D an assigner that is modified while the server runs (5 rounds of add / replace / remove): rpc.serverInfo and Server.ServerInfo() report the current sorted list also after a caller overwrote the list it was given, every pool name is dispatched according to the current mapping. " +
 			"Oracle: reference resolver from the documentation; recording assigner at every node; identity tag per handler. " +
 			"distinct_nontrivial = distinct (DisableBuiltin, non-empty method name, expected outcome class {handler at level k, not-found by reason and level, reserved, serverInfo}) triples actually called and compared, plus for block B distinct (DisableBuiltin, name, class, notification?, name already occurred earlier in the same batch?) tuples compared",
 		Assumptions: []string{
@@ -837,6 +859,7 @@ func init() {
 			"batches_checked": 4000, "batches_with_repeated_method_names": 2500, "batch_requests_checked": 15000, "batch_repeated_name_requests_checked": 7000,
 			"batch_repeated_name_runs_checked": 2500, "batch_handler_runs_checked": 5000, "batch_notifications_run_checked": 1000, "batch_not_found": 4000,
 			"batch_reserved_names_withheld": 500, "batch_assign_calls_checked": 20000,
+			"requests_with_respelt_method": 5000, "serverinfo_after_change_checked": 30, "dynamic_dispatch_checked": 1000,
 		},
 		Exhaustive: func(e vt.Env) bool { return false },
 		Cases:      c17cases,
